@@ -69,7 +69,13 @@ func BuildFFSigner(workDir string) (string, error) {
 		}
 	}
 	bin := filepath.Join(workDir, "ffsigner")
-	cmd := exec.Command("go", "build", "-modfile="+filepath.Join(workDir, "go.mod"), "-o", bin, "./ffsigner")
+	args := []string{"build", "-modfile=" + filepath.Join(workDir, "go.mod")}
+	if cp := os.Getenv("VERIF_COVERPKG"); cp != "" {
+		// statement-coverage measurement of the proxy process (lib/coverage.sh); never set by ./check
+		args = append(args, "-cover", "-coverpkg="+cp)
+	}
+	args = append(args, "-o", bin, "./ffsigner")
+	cmd := exec.Command("go", args...)
 	cmd.Dir = repo
 	cmd.Env = goEnv()
 	out, err := cmd.CombinedOutput()
